@@ -238,26 +238,29 @@ def _json_builders(schema: Schema, out: list):
     return gen
 
 
-def dyn_harness_source(schema: Schema) -> str:
+def dyn_harness_source(schema: Schema, dynamic: bool = True) -> str:
     """TU for the run-time (reflection-loaded) codec against the static one, both through their JSON entry points:
     dyn_load(bin, n) -> DynamicSchema*; {sta,dyn}_enc(.., args, out) -> nbytes | -1; {sta,dyn}_dec(.., in, n, area) -> area bytes | -1.
     The json values are built from / dumped to the flat areas of marshal(); enumerators travel as numbers in the areas and
     are spelled as names towards the dynamic schema (the representational difference the property allows)."""
-    out = _prelude(['#include "dynamic.h"'])
+    out = _prelude(['#include "dynamic.h"'] if dynamic else [])
     out.append('using json = nlohmann::json;')
     gen = _json_builders(schema, out)
     top = schema.top
     b, d = gen(("struct", top))
-    out.append('extern "C" void* dyn_load(const char* bin, unsigned long n) { auto* s = new fcp::dynamic::DynamicSchema(); '
-               's->LoadBinarySchema(std::string(bin, n)); return s; }')
+    if dynamic:
+        out.append('extern "C" void* dyn_load(const char* bin, unsigned long n) { auto* s = new fcp::dynamic::DynamicSchema(); '
+                   's->LoadBinarySchema(std::string(bin, n)); return s; }')
     copy = 'if (!e.has_value()) return -1; for (unsigned long i = 0; i < e->size(); i++) out[i] = (*e)[i]; return (long)e->size();'
-    out.append(f'extern "C" long dyn_enc(void* sp, const unsigned char* args, unsigned char* out) {{ Rd r{{args}}; json j = {b}(r, true); '
-               f'auto e = ((fcp::dynamic::DynamicSchema*)sp)->EncodeJson("{top}", j); {copy} }}')
+    if dynamic:
+        out.append(f'extern "C" long dyn_enc(void* sp, const unsigned char* args, unsigned char* out) {{ Rd r{{args}}; json j = {b}(r, true); '
+                   f'auto e = ((fcp::dynamic::DynamicSchema*)sp)->EncodeJson("{top}", j); {copy} }}')
     out.append(f'extern "C" long sta_enc(const unsigned char* args, unsigned char* out) {{ Rd r{{args}}; json j = {b}(r, false); '
                f'fcp::StaticSchema s; auto e = s.EncodeJson("{top}", j); {copy} }}')
-    out.append(f'extern "C" long dyn_dec(void* sp, const unsigned char* in, unsigned long n, unsigned char* area) {{ '
-               f'auto v = ((fcp::dynamic::DynamicSchema*)sp)->DecodeJson("{top}", std::vector<std::uint8_t>(in, in + n)); '
-               f'if (!v.has_value()) return -1; Wr w{{area}}; {d}(*v, w, true); return (long)(w.p - area); }}')
+    if dynamic:
+        out.append(f'extern "C" long dyn_dec(void* sp, const unsigned char* in, unsigned long n, unsigned char* area) {{ '
+                   f'auto v = ((fcp::dynamic::DynamicSchema*)sp)->DecodeJson("{top}", std::vector<std::uint8_t>(in, in + n)); '
+                   f'if (!v.has_value()) return -1; Wr w{{area}}; {d}(*v, w, true); return (long)(w.p - area); }}')
     out.append(f'extern "C" long sta_dec(const unsigned char* in, unsigned long n, unsigned char* area) {{ fcp::StaticSchema s; '
                f'auto v = s.DecodeJson("{top}", std::vector<std::uint8_t>(in, in + n)); '
                f'if (!v.has_value()) return -1; Wr w{{area}}; {d}(*v, w, false); return (long)(w.p - area); }}')
@@ -316,7 +319,7 @@ def syntax_check(outdir: str, compiler="g++"):
 
 
 # ---------------------------------------------------------------- marshalling values to/from the argument area
-def marshal(schema: Schema, t, v, out: list, enum_bits=64):
+def marshal(schema: Schema, t, v, out: list, enum_bits=64, iflag=False):
     """Append the bytes (int | z3 BV8) of value v (z3 terms / ints / Inst-style values) to `out`."""
     from .pysym import SymInt, SymFloat, SymStr
 
@@ -336,6 +339,8 @@ def marshal(schema: Schema, t, v, out: list, enum_bits=64):
     k = t[0]
     if k in ("u", "i"):
         put(v, carrier(t[1]))
+        if iflag and k == "i":
+            put(0, 8)       # the JSON dumpers add "is an unsigned JSON number beyond int64" after every signed leaf: never
     elif k == "f32":
         put(v, 32)
     elif k == "f64":
@@ -348,18 +353,18 @@ def marshal(schema: Schema, t, v, out: list, enum_bits=64):
             put(c if not isinstance(c, str) else ord(c), 8)
     elif k == "arr":
         for x in v:
-            marshal(schema, t[1], x, out, enum_bits)
+            marshal(schema, t[1], x, out, enum_bits, iflag)
     elif k == "dyn":
         put(len(v), 64)
         for x in v:
-            marshal(schema, t[1], x, out, enum_bits)
+            marshal(schema, t[1], x, out, enum_bits, iflag)
     elif k == "opt":
         put(0 if v is None else 1, 8)
         if v is not None:
-            marshal(schema, t[1], v, out, enum_bits)
+            marshal(schema, t[1], v, out, enum_bits, iflag)
     elif k == "struct":
         for fn, _, ft in schema.struct(t[1]):
-            marshal(schema, ft, v[fn], out, enum_bits)
+            marshal(schema, ft, v[fn], out, enum_bits, iflag)
     else:
         raise ValueError(t)
 
